@@ -339,6 +339,68 @@ def multi_stage(dim):
     return run
 
 
+def st_selftest_binding(tier, seed, d):
+    """Demonstrates the binding: recorded traces with one field corrupted, or one event dropped,
+    must be rejected by the specification (expected-fail runs: never VIOLATION lines)."""
+    import copy
+    os.makedirs(d, exist_ok=True)
+    src = stage("hist_random", tier, seed)
+    sdir = os.path.join(cache_dir(tier, seed), "hist_random")
+    base = sorted(glob.glob(os.path.join(sdir, "b*.trace.ndjson")))[0][:-len(".trace.ndjson")]
+    lines = [json.loads(l) for l in open(base + ".trace.ndjson")]
+
+    def find(pred):
+        for i, e in enumerate(lines):
+            if e["op"] != "reset" and "items" in e.get("obs", {}) and pred(e):
+                return i
+        return None
+
+    cases = []
+    i = find(lambda e: e["op"] == "Commit" and e["x"].get("committed") and len(e["obs"]["heads"]) == 1)
+    if i is not None:
+        c = copy.deepcopy(lines); c[i]["obs"]["heads"] = []
+        cases.append(("head dropped from a Commit observation", c, {"C13_Graph", "C13_Commit"}))
+        c = copy.deepcopy(lines)
+        k = next(iter(c[i]["obs"]["status"]))
+        c[i]["obs"]["status"][k] = "blocked"
+        cases.append(("status of an applied block changed to blocked", c, {"C05_TreeFromBlocks", "C13_Graph", "C02_RefreshApplies", "C03_Durable"}))
+        c = copy.deepcopy(lines); del c[i]
+        cases.append(("a Commit event removed (unexplained change of storage)", c, {"D_FrameStorage", "C11_AppendOnly", "C13_Commit", "C04_EmptyCommit"}))
+    i = find(lambda e: any(len(t) >= 2 for t in e["obs"]["trees"].values()))
+    if i is not None:
+        c = copy.deepcopy(lines)
+        o = next(k for k, t in c[i]["obs"]["trees"].items() if len(t) >= 2)
+        other = [r["rev"] for r in c[i]["obs"]["trees"][o] if r["rev"] != c[i]["obs"]["winner"][o]][0]
+        c[i]["obs"]["winner"][o] = other
+        cases.append(("winner of an object replaced by another revision of its tree", c, {"C05_WinnerRule"}))
+    i = find(lambda e: e["op"] == "Update" and e["res"]["kind"] == "ok" and e["obs"]["doc"]["ok"])
+    if i is not None:
+        c = copy.deepcopy(lines); c[i]["obs"]["doc"]["sha"] = "0" * 64
+        cases.append(("document digest altered after an Update", c, {"C04_Exact", "C04_WeakUnderArrayConflict", "C04_Idempotent"}))
+    out = []
+    for n, (what, evs, expect) in enumerate(cases):
+        b = os.path.join(d, "c%02d" % n)
+        with open(b + ".trace.ndjson", "w") as f:
+            for e in evs:
+                f.write(json.dumps(e) + "\n")
+        shutil.copyfile(base + ".items.ndjson", b + ".items.ndjson")
+        shutil.copyfile(base + ".revs.ndjson", b + ".revs.ndjson")
+        r = vlib.validate_bundle(b)
+        got = {v["pred"] for v in r["violations"]}
+        out.append({"corruption": what, "expected_any_of": sorted(expect), "rejected_by": sorted(got), "rejected": bool(got & expect)})
+    return {"violations": [], "counts": {}, "tlc_states": 0, "events": 0, "runs": 0, "timeouts": [], "selftest": out}
+
+
+def st_specmutants(tier, seed, d):
+    """Every Bug switch of the model must violate the property it is meant to break."""
+    import subprocess
+    os.makedirs(d, exist_ok=True)
+    p = subprocess.run([sys.executable, os.path.join(VERIF, "tools", "specmutants.py")], stdout=subprocess.PIPE, stderr=subprocess.STDOUT, text=True)
+    rows = [l.split() for l in p.stdout.splitlines() if "CAUGHT" in l or "MISSED" in l]
+    return {"violations": [], "counts": {}, "tlc_states": 0, "events": 0, "runs": 0, "timeouts": [],
+            "specmutants": [{"bug": r[0], "result": r[1], "violated": r[2]} for r in rows], "raw": p.stdout[-3000:]}
+
+
 def fn_stage(which):
     def run(tier, seed, d):
         info = vlib.run_fn(which, d, tier, seed)
@@ -384,6 +446,7 @@ def st_mc_merge(tier, seed, d):
 STAGES = {"hist_random": st_hist_random, "fn_merge": fn_stage("merge"), "fn_diff": fn_stage("diff"),
           "fn_revision": fn_stage("revision"), "fn_revtree": fn_stage("revtree"), "mc_merge": st_mc_merge,
           "mc_quick": mc_stage("MC_quick.cfg", 300, 6000, 24, 400),
+          "selftest_binding": st_selftest_binding, "specmutants": st_specmutants,
           "kv": st_kv, "multi_config": multi_stage("config"), "multi_backend": multi_stage("backend")}
 
 # ---------------------------------------------------------------- known findings
